@@ -1120,6 +1120,13 @@ pub fn proposal_extras(w: &mut World, _p: usize, g: usize, spec: &PropSpec) -> V
     let mut x = PropExtras::default();
     if let PropSpec::Template { t, q } = spec {
         match t {
+            14 => {
+                // the resumption PSK of an epoch that has not happened yet
+                let epoch = w.groups[g].log.len() as u64;
+                let off = [1u64, 7, u64::MAX - epoch][*q % 3];
+                let e = epoch.saturating_add(off);
+                x.raw = Some(Arc::new(move |grp: &mut SimGroup| grp.propose_resumption_psk(e, vec![])));
+            }
             12 => {
                 // add a device that does not support the extension type the group context carries
                 let epoch = w.groups[g].log.len() as u64;
